@@ -128,7 +128,7 @@ func runRace(c *core.Ctx) {
 					}
 				}
 				hdr := map[string]string{"state-hash": hx(block.Header.StateHash[:]), "receipt-hash": hx(block.Header.ReceiptHash[:]), "gas-used": fmt.Sprint(block.Header.GasUsed)}
-				cc.rejected(height, parts, hdr, refRec, rj, others, kinds, chainOpts{})
+				cc.rejected(height, parts, hdr, refRec, rj, others, kinds, chainOpts{}, nil)
 				return
 			}
 			rec := &record{Kind: rp.kind, OK: ok}
